@@ -17,6 +17,8 @@ witness), and `never_use_failed_alloc_pushPair_after_fix` covers the variant tes
 -/
 namespace MjProof.C20
 open MjProof.Arena MjProof.ArenaConsumers
+set_option linter.unusedSimpArgs false
+set_option linter.unusedVariables false
 
 /-! ### Every use of an allocation result is dominated by a success test on that result -/
 
